@@ -323,6 +323,16 @@ def make_jobs(ctx, target, hists, paths, jid0, via_rng):
              "steps": ",".join(step_str(a) for a in h["steps"])}
         jobs.append(j)
         meta[jid] = (target, h)
+        # the abstract action "partial supply" at EVERY small split point: the short histories that contain one are
+        # run again with the partial supply being exactly k bytes, k = 1 .. 12 (24 in the thorough tier) - a chunk
+        # boundary strictly inside a fixed-size header field or a constant skip (the model's expectation is the same)
+        if len(h["steps"]) <= 3 and kind != "twocoro" and any(a["op"] == "coro" and a["f"] == "half" for a in h["steps"]) \
+                and all(a["a"] == "ok" for a in h["steps"]) and h["mem"] == "Ok":
+            for k in range(1, (25 if ctx.tier == "thorough" else 13)):
+                jid += 1
+                j2 = dict(j, id=jid, halfk=k)
+                jobs.append(j2)
+                meta[jid] = (target, h)
     return jobs, meta, jid
 
 
